@@ -221,10 +221,9 @@ static int upipe_block_to_sound_set_flow_def(struct upipe *upipe,
     if (flow_def == NULL)
         return UBASE_ERR_INVALID;
 
-    if (unlikely(!ubase_check(uref_flow_match_def(flow_def, "block.")))) {
-        uref_free(flow_def);
+    /* the flow definition still belongs to the caller */
+    if (unlikely(!ubase_check(uref_flow_match_def(flow_def, "block."))))
         return UBASE_ERR_INVALID;
-    }
 
     flow_def = uref_dup(upipe_block_to_sound->flow_def_config);
     if (unlikely(flow_def == NULL)) {
@@ -246,6 +245,7 @@ static int upipe_block_to_sound_set_flow_def(struct upipe *upipe,
 
     struct uref *flow_def_dup;
     if (unlikely((flow_def_dup = uref_dup(flow_def)) == NULL)) {
+        uref_free(flow_def);
         upipe_throw_fatal(upipe, UBASE_ERR_ALLOC);
         return UBASE_ERR_ALLOC;
     }
